@@ -150,7 +150,7 @@ class EcdsaSignSpy:
 class C13(Prop):
     id = 'C13'
     title = 'Keys: pubkey derivation, WIF round trip, ECDSA sign/verify match secp256k1'
-    table_groups = ['ChainAddr']
+    table_groups = ['ChainSecret']      # "WIF text ... under every chain's prefix": the secret-key byte only
     lean_targets = ['BtcVerif.Props.C13', 'BtcVerif.Props.Coherence']
     theorems = ['BtcVerif.C13.' + t for t in (
         'p_eq', 'p_eq_sec2', 'n_eq', 'n_lt_p', 'p_mod_4', 'G_on_curve', 'G_onCurve', 'n_mul_G', 'n_pred_mul_G',
